@@ -570,7 +570,10 @@ class Interp(object):
                 self.passed_pl = arg if arg.dtype.kind == "f" else None
                 self._lib(self.tags(op="pathloss"), self.obj.set_pathloss,
                           arg)
-        self.states.append((self.raw, self.PL))
+        if self.PL is None or np.shape(self.PL) == (self.K, self.K + self.E):
+            # (after a K- or E-changing re-layout the old matrix belongs to
+            # another geometry: not a state the new views can be stale from)
+            self.states.append((self.raw, self.PL))
         self.PL = new
         self.events.append(("pl", kind))
 
